@@ -15,7 +15,13 @@ type CallRef struct {
 	Line             int
 }
 
-func (c CallRef) Full() string { return c.Pkg + "." + c.Class + "." + c.Name }
+// Full is the callee's full name; an object creation (Name == "") is named by its class alone.
+func (c CallRef) Full() string {
+	if c.Name == "" {
+		return c.Pkg + "." + c.Class
+	}
+	return c.Pkg + "." + c.Class + "." + c.Name
+}
 
 type Method struct {
 	Pkg, Class, Name string
@@ -92,6 +98,9 @@ func Generate(r *run.Rand, o Opts) *Model {
 			if !used[pk+"."+cn] {
 				break
 			}
+		}
+		if o.Quotes && r.Chance(1, 12) && !used[pk+"."+cn+"\"Q"] {
+			cn = cn + "\"Q" // a quote in a class name (the quantifier names quotes; matters for DI replacement)
 		}
 		used[pk+"."+cn] = true
 		m.Classes = append(m.Classes, &Class{Pkg: pk, Name: cn})
@@ -225,6 +234,15 @@ func Generate(r *run.Rand, o Opts) *Model {
 		if r.Chance(1, 5) {
 			add(me, CallRef{Pkg: "java.util", Class: "List", Name: "add"})
 		}
+		if r.Chance(1, 6) {
+			// object creation: of a project class, or of an external class
+			if r.Bool() {
+				c := m.Classes[r.Intn(nCls)]
+				add(me, CallRef{Pkg: c.Pkg, Class: c.Name, Name: ""})
+			} else {
+				add(me, CallRef{Pkg: "java.util", Class: "ArrayList", Name: ""})
+			}
+		}
 		if r.Chance(1, 8) {
 			// external method of a project class name that is not declared
 			c := m.Classes[r.Intn(nCls)]
@@ -261,6 +279,8 @@ func (m *Model) Describe() []string {
 		for _, c := range me.Calls {
 			if c.Class == "" {
 				cs = append(cs, "?."+c.Name)
+			} else if c.Name == "" {
+				cs = append(cs, "new "+c.Full())
 			} else {
 				cs = append(cs, c.Full())
 			}
